@@ -767,4 +767,617 @@ theorem parseSide_export1 (mb : Bool) (s : Side) (h : SideOK1 s = true) :
   simp_all
 
 
+
+
+theorem foldE_append {σ} (step : σ → KV → Except Err σ) (st : σ) (a b : List KV) :
+    foldE step st (a ++ b) = match foldE step st a with
+      | .error e => .error e
+      | .ok st' => foldE step st' b := by
+  induction a generalizing st with
+  | nil => rfl
+  | cons k ks ih =>
+    simp only [List.cons_append, foldE]
+    cases step st k with
+    | error e => rfl
+    | ok st' => exact ih st'
+
+theorem convBool_boolStr (b d : Bool) : convBool (boolStr b) d = b := by
+  simp [convBool, boolLookup_boolStr]
+
+/-! ### solids -/
+
+theorem named_side_export (mb : Bool) (s : Side) : named "side" (exportSide mb s) = true := by
+  simp [exportSide, kBlock, named, KV.fname, KV.name, lower]
+
+theorem named_editor_export_side (mb : Bool) (s : Side) : named "editor" (exportSide mb s) = false := by
+  simp [exportSide, kBlock, named, KV.fname, KV.name, lower]
+
+theorem isBlock_export_side (mb : Bool) (s : Side) : (exportSide mb s).isBlock = true := by
+  simp [exportSide, kBlock, KV.isBlock]
+
+def SolidOK1 (s : Solid) : Bool := s.sides.all SideOK1 && V3OK s.color
+
+theorem parseSides_export (mb : Bool) (sides : List Side) (rest : List KV)
+    (h : ∀ s ∈ sides, SideOK1 s = true) (hr : parseSides rest = .ok []) :
+    parseSides (sides.map (exportSide mb) ++ rest) = .ok sides := by
+  induction sides with
+  | nil => simpa using hr
+  | cons s ss ih =>
+    simp only [List.map_cons, List.cons_append, parseSides, named_side_export, if_true]
+    rw [parseSide_export1 mb s (h s (by simp)), ih (fun t ht => h t (by simp [ht]))]
+
+theorem editorKids_skip (l rest : List KV) (h : ∀ k ∈ l, named "editor" k = false) :
+    editorKids (l ++ rest) = editorKids rest := by
+  induction l with
+  | nil => rfl
+  | cons k ks ih =>
+    simp only [List.cons_append, editorKids, h k (by simp), Bool.false_eq_true, if_false]
+    exact ih (fun j hj => h j (by simp [hj]))
+
+theorem solidEd_color (st : SolidEd) (v : Str) :
+    solidEdStep st (kLeaf "color" v) = .ok { st with color := parseV3 v3white v } := by
+  simp [solidEdStep, kLeaf, named, KV.fname, KV.name, lower, KV.isBlock]
+
+theorem solidEd_groupid (st : SolidEd) (g : Int) :
+    solidEdStep st (kInt "groupid" g) = .ok { st with group := some g } := by
+  simp [solidEdStep, kInt, kLeaf, named, KV.fname, KV.name, lower, KV.isBlock, parseInt_showInt]
+
+theorem solidEd_visgroupid (st : SolidEd) (g : Int) :
+    solidEdStep st (kInt "visgroupid" g) = .ok { st with visIds := st.visIds ++ [g] } := by
+  simp [solidEdStep, kInt, kLeaf, named, KV.fname, KV.name, lower, KV.isBlock, parseInt_showInt]
+
+theorem solidEd_shown (st : SolidEd) (b : Bool) :
+    solidEdStep st (kBool "visgroupshown" b) = .ok { st with visShown := b } := by
+  simp [solidEdStep, kBool, kLeaf, named, KV.fname, KV.name, lower, KV.isBlock, convBool_boolStr]
+
+theorem solidEd_auto (st : SolidEd) (b : Bool) :
+    solidEdStep st (kBool "visgroupautoshown" b) = .ok { st with visAuto := b } := by
+  simp [solidEdStep, kBool, kLeaf, named, KV.fname, KV.name, lower, KV.isBlock, convBool_boolStr]
+
+theorem solidEd_cordon (st : SolidEd) :
+    solidEdStep st (kLeaf "cordonsolid" ['1']) = .ok { st with cordon := true } := by
+  simp [solidEdStep, kLeaf, named, KV.fname, KV.name, lower, KV.isBlock]
+
+theorem foldE_solid_visids (st : SolidEd) (ids : List Int) :
+    foldE solidEdStep st (ids.map (kInt "visgroupid")) = .ok { st with visIds := st.visIds ++ ids } := by
+  induction ids generalizing st with
+  | nil => simp [foldE]
+  | cons i is ih =>
+    simp only [List.map_cons, foldE, solidEd_visgroupid]
+    rw [ih]
+    simp
+
+/-- what a re-parse makes of a solid (v1: faces without displacement are unchanged). -/
+def solidRT (ig hidden : Bool) (s : Solid) : Solid :=
+  { s with hidden, visIds := if ig then isort intLe s.visIds else [], group := if ig then s.group else none }
+
+theorem foldE_solidEditor (ig : Bool) (s : Solid) (hc : V3OK s.color = true) :
+    foldE solidEdStep {} (solidEditor ig s) =
+      .ok { visIds := if ig then isort intLe s.visIds else [], group := if ig then s.group else none,
+            visShown := s.visShown, visAuto := s.visAuto, cordon := s.cordon, color := s.color } := by
+  unfold solidEditor
+  simp only [foldE_append, List.singleton_append, List.cons_append, List.nil_append, foldE, solidEd_color,
+    parseV3_str _ _ hc]
+  cases ig with
+  | false =>
+    simp only [Bool.false_eq_true, if_false, foldE, solidEd_shown, solidEd_auto]
+    cases hcd : s.cordon <;> simp [foldE, solidEd_cordon]
+  | true =>
+    simp only [if_true]
+    cases hg : s.group with
+    | none =>
+      simp only [List.nil_append, foldE_solid_visids, foldE, solidEd_shown, solidEd_auto]
+      cases hcd : s.cordon <;> simp [foldE, solidEd_cordon]
+    | some g =>
+      simp only [List.singleton_append, foldE, solidEd_groupid, foldE_solid_visids, solidEd_shown, solidEd_auto]
+      cases hcd : s.cordon <;> simp [foldE, solidEd_cordon]
+
+theorem parseSolid_block (mb ig hidden : Bool) (s : Solid) (h : SolidOK1 s = true) :
+    parseSolid hidden (solidBlock mb ig s) = .ok (solidRT ig hidden s) := by
+  simp only [SolidOK1, Bool.and_eq_true, List.all_eq_true] at h
+  obtain ⟨hs, hc⟩ := h
+  simp only [solidBlock, kBlock, parseSolid]
+  have e1 : parseSides (kInt "id" s.id :: (s.sides.map (exportSide mb) ++ [KV.block "editor".toList (solidEditor ig s)])) = .ok s.sides := by
+    have hid : named "side" (kInt "id" s.id) = false := by kv_simp
+    simp only [parseSides, hid, Bool.false_eq_true, if_false]
+    exact parseSides_export mb s.sides _ hs (by
+      simp [parseSides, named, KV.fname, KV.name, lower])
+  have e2 : editorKids (kInt "id" s.id :: (s.sides.map (exportSide mb) ++ [KV.block "editor".toList (solidEditor ig s)])) = .ok (solidEditor ig s) := by
+    have hid : named "editor" (kInt "id" s.id) = false := by kv_simp
+    simp only [editorKids, hid, Bool.false_eq_true, if_false]
+    rw [editorKids_skip _ _ (by
+      intro k hk
+      simp only [List.mem_map] at hk
+      obtain ⟨t, _, rfl⟩ := hk
+      exact named_editor_export_side mb t)]
+    simp [editorKids, named, KV.fname, KV.name, lower, blockKids]
+  have e3 : getInt "id" (-1) (kInt "id" s.id :: (s.sides.map (exportSide mb) ++ [KV.block "editor".toList (solidEditor ig s)])) = s.id := by
+    unfold getInt
+    have := getLeaf_append_blocks "id" [kInt "id" s.id] (s.sides.map (exportSide mb) ++ [KV.block "editor".toList (solidEditor ig s)]) (by
+      intro k hk
+      simp only [List.mem_append, List.mem_map, List.mem_singleton] at hk
+      rcases hk with ⟨t, _, rfl⟩ | rfl
+      · exact isBlock_export_side mb t
+      · rfl)
+    simp only [List.singleton_append] at this
+    rw [this]
+    kv_simp
+    simp [parseInt_showInt]
+  rw [e1]
+  simp only []
+  rw [e2]
+  simp only []
+  rw [foldE_solidEditor ig s hc]
+  simp only []
+  rw [e3]
+  cases s
+  simp [solidOf, solidRT]
+
+
+
+
+/-! ### sorting -/
+
+theorem insertBy_perm {α} (le : α → α → Bool) (x : α) (l : List α) : (insertBy le x l).Perm (x :: l) := by
+  induction l with
+  | nil => exact List.Perm.refl _
+  | cons y ys ih =>
+    simp only [insertBy]
+    split
+    · exact List.Perm.refl _
+    · exact (List.Perm.cons y ih).trans (List.Perm.swap x y ys)
+
+theorem isort_perm {α} (le : α → α → Bool) (l : List α) : (isort le l).Perm l := by
+  induction l with
+  | nil => exact List.Perm.refl _
+  | cons x xs ih => exact (insertBy_perm le x _).trans (List.Perm.cons x ih)
+
+theorem mem_isort {α} (le : α → α → Bool) (l : List α) (x : α) : x ∈ isort le l ↔ x ∈ l :=
+  (isort_perm le l).mem_iff
+
+/-! ### dictionaries -/
+
+theorem dictSet_new (d : List (Str × Str)) (k v : Str) (h : ∀ kv ∈ d, kv.1 ≠ k) :
+    dictSet d k v = d ++ [(k, v)] := by
+  have : d.any (·.1 == k) = false := by
+    simp only [List.any_eq_false, beq_iff_eq]
+    intro kv hkv; exact h kv hkv
+  simp [dictSet, this]
+
+theorem entSetKey_new (d : List (Str × Str)) (k v : Str) (h : ∀ kv ∈ d, lower kv.1 ≠ lower k) :
+    entSetKey d k v = d ++ [(k, v)] := by
+  have : d.any (fun kv => lower kv.1 == lower k) = false := by
+    simp only [List.any_eq_false, beq_iff_eq]
+    intro kv hkv; exact h kv hkv
+  simp [entSetKey, this]
+
+/-- keys pairwise different ignoring case (the invariant `Entity.__setitem__` maintains) -/
+def KeysDistinct (l : List (Str × Str)) : Prop := l.Pairwise (fun a b => lower a.1 ≠ lower b.1)
+
+theorem foldl_entSetKey (acc l : List (Str × Str)) (h : KeysDistinct (acc ++ l)) :
+    l.foldl (fun ks kv => entSetKey ks kv.1 kv.2) acc = acc ++ l := by
+  induction l generalizing acc with
+  | nil => simp
+  | cons kv r ih =>
+    simp only [List.foldl_cons]
+    have h1 : ∀ a ∈ acc, lower a.1 ≠ lower kv.1 := by
+      intro a ha
+      have := List.pairwise_append.mp h
+      exact this.2.2 a ha kv (by simp)
+    rw [entSetKey_new acc kv.1 kv.2 h1]
+    have : KeysDistinct ((acc ++ [(kv.1, kv.2)]) ++ r) := by
+      simpa [KeysDistinct] using h
+    rw [ih _ this]
+    simp
+
+theorem lower_ne_of_ne {a b : Str} (h : lower a ≠ lower b) : a ≠ b := fun e => h (by rw [e])
+
+
+
+
+theorem fixSplit_nodup (seen : List Int) (l : List Fix)
+    (h1 : (l.map (·.id)).Nodup) (h2 : ∀ f ∈ l, f.id ∉ seen) : fixSplit seen l = (l, []) := by
+  induction l generalizing seen with
+  | nil => rfl
+  | cons f r ih =>
+    simp only [List.map_cons, List.nodup_cons] at h1
+    have := ih (f.id :: seen) h1.2 (by
+      intro g hg
+      simp only [List.mem_cons, not_or]
+      refine ⟨?_, h2 g (by simp [hg])⟩
+      intro e
+      exact h1.1 (by simp only [List.mem_map]; exact ⟨g, hg, e⟩))
+    have hf' : f.id ∉ seen := h2 f (by simp)
+    simp [fixSplit, hf', this]
+
+def VarsDistinct (l : List Fix) : Prop := l.Pairwise (fun a b => lower a.var ≠ lower b.var)
+
+theorem fixPut_new (d : List Fix) (f : Fix) (h : ∀ g ∈ d, lower g.var ≠ lower f.var) : fixPut d f = d ++ [f] := by
+  have : d.any (fun g => lower g.var == lower f.var) = false := by
+    simp only [List.any_eq_false, beq_iff_eq]
+    intro g hg; exact h g hg
+  simp [fixPut, this]
+
+theorem foldl_fixPut (acc l : List Fix) (h : VarsDistinct (acc ++ l)) : l.foldl fixPut acc = acc ++ l := by
+  induction l generalizing acc with
+  | nil => simp
+  | cons f r ih =>
+    simp only [List.foldl_cons]
+    have h1 : ∀ a ∈ acc, lower a.var ≠ lower f.var := by
+      intro a ha
+      exact (List.pairwise_append.mp h).2.2 a ha f (by simp)
+    rw [fixPut_new acc f h1]
+    have : VarsDistinct ((acc ++ [f]) ++ r) := by simpa [VarsDistinct] using h
+    rw [ih _ this]; simp
+
+theorem fixInit_id (l : List Fix) (h1 : (l.map (·.id)).Nodup) (h2 : VarsDistinct l) : fixInit l = l := by
+  unfold fixInit
+  rw [fixSplit_nodup [] l h1 (by simp)]
+  simp only [List.foldl_nil]
+  have := foldl_fixPut [] l (by simpa using h2)
+  simpa using this
+
+
+
+theorem isNumeric_showNat (n : Nat) : isNumeric (showNat n) = true := by
+  have h1 := showNat_all_digit n
+  have h2 : (showNat n).isEmpty = false := by
+    cases h : showNat n with
+    | nil => exact absurd h (showNat_ne_nil n)
+    | cons a b => rfl
+  simp [isNumeric, h1, h2]
+
+theorem entStep_id (w : Bool) (st : EntSt) (n : Nat) :
+    entStep w st (kInt "id" (Int.ofNat n)) = .ok { st with id := Int.ofNat n } := by
+  have hp := parseInt_showInt (Int.ofNat n)
+  simp only [showInt] at hp
+  show entStep w st (KV.leaf ['i', 'd'] (showNat n)) = _
+  have hn : named "id" (KV.leaf ['i', 'd'] (showNat n)) = true := by
+    simp [named, KV.fname, KV.name, lower]
+  unfold entStep
+  simp only [hn, isNumeric_showNat, Bool.and_self, if_true, hp, Option.getD_some]
+
+/-- an entity key that is neither the `id` line nor a `replaceNN` line -/
+def KeyNameOK (k : Str) : Bool := lower k != lit "id" && !(lit "replace").isPrefixOf (lower k)
+
+theorem entStep_key (w : Bool) (st : EntSt) (k v : Str) (h : KeyNameOK k = true) :
+    entStep w st (.leaf k v) = .ok { st with keys := dictSet st.keys k v } := by
+  simp only [KeyNameOK, Bool.and_eq_true, bne_iff_ne, ne_eq, Bool.not_eq_true'] at h
+  have h1 : named "id" (KV.leaf k v) = false := by
+    simp only [named, KV.fname, KV.name]
+    have : lower "id".toList = lit "id" := by decide
+    rw [this]
+    simpa using h.1
+  have h2 : (lit "replace").isPrefixOf (KV.leaf k v).fname = false := by
+    simpa [KV.fname, KV.name] using h.2
+  simp [entStep, h1, h2]
+
+theorem replace_names : ∀ n, n < 100 →
+    (lower (lit "replace" ++ pad2 (showNat n)) == lit "id") = false ∧
+    (lit "replace").isPrefixOf (lower (lit "replace" ++ pad2 (showNat n))) = true ∧
+    parseInt? (last2 (lower (lit "replace" ++ pad2 (showNat n)))) = some (Int.ofNat n) := by
+  decide +kernel
+
+def FixOK (f : Fix) : Bool :=
+  decide (0 ≤ f.id) && decide (f.id < 100) && !f.var.contains ' ' && f.var.head? != some '$'
+
+theorem entStep_fix (w : Bool) (st : EntSt) (f : Fix) (h : FixOK f = true) :
+    entStep w st (exportFix f) = .ok { st with fixup := st.fixup ++ [f] } := by
+  cases f with
+  | mk var value id =>
+  simp only [FixOK, Bool.and_eq_true, decide_eq_true_eq, Bool.not_eq_true', bne_iff_ne, ne_eq] at h
+  obtain ⟨⟨⟨h0, h1⟩, hsp⟩, hd⟩ := h
+  obtain ⟨n, rfl⟩ : ∃ n : Nat, id = Int.ofNat n := ⟨id.toNat, by simp; omega⟩
+  have hn100 : n < 100 := Int.ofNat_lt.mp h1
+  obtain ⟨r1, r2, r3⟩ := replace_names n hn100
+  have hexp : exportFix ⟨var, value, Int.ofNat n⟩
+      = KV.leaf (lit "replace" ++ pad2 (showNat n)) ('$' :: (var ++ ' ' :: value)) := rfl
+  rw [hexp]
+  have hname : named "id" (KV.leaf (lit "replace" ++ pad2 (showNat n)) ('$' :: (var ++ ' ' :: value))) = false := by
+    simp only [named, KV.fname, KV.name]
+    have : lower "id".toList = lit "id" := by decide
+    rw [this]; exact r1
+  have hsplit : splitFirst ' ' ('$' :: (var ++ ' ' :: value)) [] = ('$' :: var, some value) := by
+    have hns : ' ' ∉ ('$' :: var) := by
+      simp only [List.mem_cons, not_or]
+      exact ⟨by decide, by simpa using hsp⟩
+    have := splitFirst_pre ' ' ('$' :: var) value [] hns
+    simpa using this
+  have hstrip : lstripC '$' ('$' :: var) = var := by
+    cases hv : var with
+    | nil => simp [lstripC, List.dropWhile]
+    | cons c r =>
+      have hc : (c == '$') = false := by
+        simp only [beq_eq_false_iff_ne, ne_eq]
+        intro e; apply hd; simp [hv, e]
+      simp [lstripC, List.dropWhile, hc]
+  unfold entStep
+  simp only [hname, Bool.false_and, Bool.false_eq_true, if_false]
+  have hf : (KV.leaf (lit "replace" ++ pad2 (showNat n)) ('$' :: (var ++ ' ' :: value))).fname
+      = lower (lit "replace" ++ pad2 (showNat n)) := rfl
+  rw [hf, r2]
+  simp only [if_true, r3, fixOfLeaf, hsplit, hstrip, Option.getD_some]
+
+
+
+
+theorem entStep_solid (mb w : Bool) (st : EntSt) (s : Solid) (h : SolidOK1 s = true) :
+    entStep w st (exportSolid mb w s) = .ok { st with solids := st.solids ++ [solidRT w s.hidden s] } := by
+  cases hh : s.hidden with
+  | false =>
+    have e : exportSolid mb w s = solidBlock mb w s := by simp [exportSolid, maybeHidden, hh]
+    rw [e]
+    have hp := parseSolid_block mb w false s h
+    have hn : named "solid" (solidBlock mb w s) = true := by
+      simp [solidBlock, kBlock, named, KV.fname, KV.name, lower]
+    simp only [solidBlock, kBlock] at hp hn ⊢
+    simp only [entStep, hn, if_true, hp]
+  | true =>
+    have e : exportSolid mb w s = kBlock "hidden" [solidBlock mb w s] := by simp [exportSolid, maybeHidden, hh]
+    rw [e]
+    have hp := parseSolid_block mb w true s h
+    have hn : named "solid" (solidBlock mb w s) = true := by
+      simp [solidBlock, kBlock, named, KV.fname, KV.name, lower]
+    have h1 : named "solid" (kBlock "hidden" [solidBlock mb w s]) = false := by
+      simp [kBlock, named, KV.fname, KV.name, lower]
+    have h2 : named "connections" (kBlock "hidden" [solidBlock mb w s]) = false := by
+      simp [kBlock, named, KV.fname, KV.name, lower]
+    have h3 : named "editor" (kBlock "hidden" [solidBlock mb w s]) = false := by
+      simp [kBlock, named, KV.fname, KV.name, lower]
+    have h4 : named "hidden" (kBlock "hidden" [solidBlock mb w s]) = true := by
+      simp [kBlock, named, KV.fname, KV.name, lower]
+    simp only [kBlock] at h1 h2 h3 h4 ⊢
+    simp only [entStep, h1, h2, h3, h4, Bool.false_eq_true, if_false, if_true, foldE, hiddenStep, hn, hp]
+
+theorem parseOuts_export (outs : List Out) (h : ∀ o ∈ outs, OutOK o = true) :
+    parseOuts (outs.map exportOut) = .ok (outs.map projOut) := by
+  induction outs with
+  | nil => rfl
+  | cons o os ih =>
+    simp only [List.map_cons, parseOuts, parseOut_export o (h o (by simp)), ih (fun p hp => h p (by simp [hp]))]
+
+theorem entStep_connections (w : Bool) (st : EntSt) (outs : List Out) (h : ∀ o ∈ outs, OutOK o = true) :
+    entStep w st (kBlock "connections" (outs.map exportOut)) =
+      .ok { st with outputs := st.outputs ++ outs.map projOut } := by
+  have h1 : named "solid" (kBlock "connections" (outs.map exportOut)) = false := by
+    simp [kBlock, named, KV.fname, KV.name, lower]
+  have h2 : named "connections" (kBlock "connections" (outs.map exportOut)) = true := by
+    simp [kBlock, named, KV.fname, KV.name, lower]
+  simp only [kBlock] at h1 h2 ⊢
+  simp only [entStep, h1, h2, Bool.false_eq_true, if_false, if_true, parseOuts_export outs h]
+
+theorem entStep_group (st : EntSt) (g : Group) (h : GroupOK g = true) :
+    entStep true st (exportGroup g) = .ok { st with groups := st.groups ++ [g] } := by
+  have hp := parseGroup_export g h
+  have h1 : named "solid" (exportGroup g) = false := by simp [exportGroup, kBlock, named, KV.fname, KV.name, lower]
+  have h2 : named "connections" (exportGroup g) = false := by simp [exportGroup, kBlock, named, KV.fname, KV.name, lower]
+  have h3 : named "editor" (exportGroup g) = false := by simp [exportGroup, kBlock, named, KV.fname, KV.name, lower]
+  have h4 : named "hidden" (exportGroup g) = false := by simp [exportGroup, kBlock, named, KV.fname, KV.name, lower]
+  have h5 : named "group" (exportGroup g) = true := by simp [exportGroup, kBlock, named, KV.fname, KV.name, lower]
+  simp only [exportGroup, kBlock] at hp h1 h2 h3 h4 h5 ⊢
+  simp only [entStep, h1, h2, h3, h4, h5, Bool.false_eq_true, if_false, if_true, Bool.not_true, hp]
+
+theorem foldE_groups (st : EntSt) (gs : List Group) (h : ∀ g ∈ gs, GroupOK g = true) :
+    foldE (entStep true) st (gs.map exportGroup) = .ok { st with groups := st.groups ++ gs } := by
+  induction gs generalizing st with
+  | nil => simp [foldE]
+  | cons g r ih =>
+    simp only [List.map_cons, foldE, entStep_group st g (h g (by simp))]
+    rw [ih _ (fun x hx => h x (by simp [hx]))]
+    simp
+
+theorem foldE_solids (mb w : Bool) (st : EntSt) (ss : List Solid) (h : ∀ s ∈ ss, SolidOK1 s = true) :
+    foldE (entStep w) st (ss.map (exportSolid mb w)) =
+      .ok { st with solids := st.solids ++ ss.map (fun s => solidRT w s.hidden s) } := by
+  induction ss generalizing st with
+  | nil => simp [foldE]
+  | cons s r ih =>
+    simp only [List.map_cons, foldE, entStep_solid mb w st s (h s (by simp))]
+    rw [ih _ (fun x hx => h x (by simp [hx]))]
+    simp
+
+theorem foldE_fixes (w : Bool) (st : EntSt) (fs : List Fix) (h : ∀ f ∈ fs, FixOK f = true) :
+    foldE (entStep w) st (fs.map exportFix) = .ok { st with fixup := st.fixup ++ fs } := by
+  induction fs generalizing st with
+  | nil => simp [foldE]
+  | cons f r ih =>
+    simp only [List.map_cons, foldE, entStep_fix w st f (h f (by simp))]
+    rw [ih _ (fun x hx => h x (by simp [hx]))]
+    simp
+
+theorem foldE_keys (w : Bool) (st : EntSt) (ks : List (Str × Str))
+    (h : ∀ kv ∈ ks, KeyNameOK kv.1 = true)
+    (hd : (st.keys ++ ks).Pairwise (fun a b => a.1 ≠ b.1)) :
+    foldE (entStep w) st (ks.map (fun kv => KV.leaf kv.1 kv.2)) = .ok { st with keys := st.keys ++ ks } := by
+  induction ks generalizing st with
+  | nil => simp [foldE]
+  | cons kv r ih =>
+    simp only [List.map_cons, foldE, entStep_key w st kv.1 kv.2 (h kv (by simp))]
+    have hnew : ∀ a ∈ st.keys, a.1 ≠ kv.1 := by
+      intro a ha
+      exact (List.pairwise_append.mp hd).2.2 a ha kv (by simp)
+    rw [dictSet_new st.keys kv.1 kv.2 hnew]
+    rw [ih _ (fun x hx => h x (by simp [hx])) (by simpa using hd)]
+    simp
+
+
+
+
+theorem entEd_color (st : EntSt) (v : Str) :
+    entEdStep st (kLeaf "color" v) = .ok { st with color := parseV3 v3white v } := by
+  simp [entEdStep, kLeaf, named, KV.fname, KV.name, lower, KV.isBlock]
+
+theorem entEd_groupid (st : EntSt) (g : Int) :
+    entEdStep st (kInt "groupid" g) = .ok { st with groupIds := st.groupIds ++ [g] } := by
+  simp [entEdStep, kInt, kLeaf, named, KV.fname, KV.name, lower, KV.isBlock, parseInt_showInt]
+
+theorem entEd_visgroupid (st : EntSt) (g : Int) :
+    entEdStep st (kInt "visgroupid" g) = .ok { st with visIds := st.visIds ++ [g] } := by
+  simp [entEdStep, kInt, kLeaf, named, KV.fname, KV.name, lower, KV.isBlock, parseInt_showInt]
+
+theorem entEd_shown (st : EntSt) (b : Bool) :
+    entEdStep st (kBool "visgroupshown" b) = .ok { st with visShown := b } := by
+  simp [entEdStep, kBool, kLeaf, named, KV.fname, KV.name, lower, KV.isBlock, convBool_boolStr]
+
+theorem entEd_auto (st : EntSt) (b : Bool) :
+    entEdStep st (kBool "visgroupautoshown" b) = .ok { st with visAuto := b } := by
+  simp [entEdStep, kBool, kLeaf, named, KV.fname, KV.name, lower, KV.isBlock, convBool_boolStr]
+
+theorem entEd_logical (st : EntSt) (v : Str) :
+    entEdStep st (kLeaf "logicalpos" v) = .ok { st with logicalPos := v } := by
+  simp [entEdStep, kLeaf, named, KV.fname, KV.name, lower, KV.isBlock]
+
+theorem entEd_comments (st : EntSt) (v : Str) :
+    entEdStep st (kLeaf "comments" v) = .ok { st with comments := v } := by
+  simp [entEdStep, kLeaf, named, KV.fname, KV.name, lower, KV.isBlock]
+
+theorem foldE_ent_groupids (st : EntSt) (ids : List Int) :
+    foldE entEdStep st (ids.map (kInt "groupid")) = .ok { st with groupIds := st.groupIds ++ ids } := by
+  induction ids generalizing st with
+  | nil => simp [foldE]
+  | cons i is ih =>
+    simp only [List.map_cons, foldE, entEd_groupid]
+    rw [ih]; simp
+
+theorem foldE_ent_visids (st : EntSt) (ids : List Int) :
+    foldE entEdStep st (ids.map (kInt "visgroupid")) = .ok { st with visIds := st.visIds ++ ids } := by
+  induction ids generalizing st with
+  | nil => simp [foldE]
+  | cons i is ih =>
+    simp only [List.map_cons, foldE, entEd_visgroupid]
+    rw [ih]; simp
+
+theorem foldE_entEditor (w : Bool) (st : EntSt) (e : Ent) (hc : V3OK e.color = true)
+    (h0 : st.groupIds = []) (h1 : st.visIds = []) (h2 : st.visShown = true) (h3 : st.visAuto = true)
+    (h4 : st.logicalPos = []) (h5 : st.comments = []) :
+    foldE entEdStep st (entEditor w e) =
+      .ok { st with color := e.color,
+                    groupIds := if w then [] else isort intLe e.groups,
+                    visIds := if w then [] else isort intLe e.visIds,
+                    visShown := if w then true else e.visShown,
+                    visAuto := if w then true else e.visAuto,
+                    logicalPos := if w then [] else e.logicalPos,
+                    comments := e.comments } := by
+  unfold entEditor
+  simp only [foldE_append, List.cons_append, List.nil_append, foldE, entEd_color, parseV3_str _ _ hc]
+  cases w with
+  | true =>
+    simp only [if_true, foldE]
+    cases hcm : e.comments with
+    | nil => simp [foldE, h0, h1, h2, h3, h4, h5]
+    | cons c r => simp [foldE, entEd_comments, h0, h1, h2, h3, h4]
+  | false =>
+    simp only [Bool.false_eq_true, if_false, foldE_append, foldE_ent_groupids, foldE_ent_visids, foldE,
+      entEd_shown, entEd_auto, entEd_logical]
+    cases hcm : e.comments with
+    | nil => simp [foldE, h0, h1, h5]
+    | cons c r => simp [foldE, entEd_comments, h0, h1]
+
+
+
+
+/-- v1 well-formedness of an entity (faces without displacement / Strata point data). -/
+structure EntOK1 (e : Ent) : Prop where
+  idNonneg : 0 ≤ e.id
+  keyNames : ∀ kv ∈ e.keys, KeyNameOK kv.1 = true
+  keysDistinct : KeysDistinct e.keys
+  fixes : ∀ f ∈ e.fixup, FixOK f = true
+  fixIds : (e.fixup.map (·.id)).Nodup
+  fixVars : VarsDistinct e.fixup
+  outs : ∀ o ∈ e.outputs, OutOK o = true
+  solids : ∀ s ∈ e.solids, SolidOK1 s = true
+  color : V3OK e.color = true
+
+/-- what `Entity.parse` (before id allocation) makes of an exported entity. -/
+def entRT (w hidden : Bool) (e : Ent) : Ent :=
+  { id := e.id, keys := isort keyLe e.keys, fixup := isort fixLe e.fixup,
+    outputs := e.outputs.map projOut, solids := e.solids.map (fun s => solidRT w s.hidden s),
+    hidden, groups := if w then [] else isort intLe e.groups,
+    visIds := if w then [] else isort intLe e.visIds,
+    visShown := if w then true else e.visShown, visAuto := if w then true else e.visAuto,
+    color := e.color, logicalPos := if w then [] else e.logicalPos, comments := e.comments }
+
+theorem keysDistinct_isort {l : List (Str × Str)} (h : KeysDistinct l) : KeysDistinct (isort keyLe l) :=
+  ((isort_perm keyLe l).pairwise_iff (fun hab => Ne.symm hab)).mpr h
+
+theorem varsDistinct_isort {l : List Fix} (h : VarsDistinct l) : VarsDistinct (isort fixLe l) :=
+  ((isort_perm fixLe l).pairwise_iff (fun hab => Ne.symm hab)).mpr h
+
+theorem entStep_editor (w : Bool) (st : EntSt) (kids : List KV) :
+    entStep w st (kBlock "editor" kids) = foldE entEdStep st kids := by
+  have h1 : named "solid" (kBlock "editor" kids) = false := by simp [kBlock, named, KV.fname, KV.name, lower]
+  have h2 : named "connections" (kBlock "editor" kids) = false := by simp [kBlock, named, KV.fname, KV.name, lower]
+  have h3 : named "editor" (kBlock "editor" kids) = true := by simp [kBlock, named, KV.fname, KV.name, lower]
+  simp only [kBlock] at h1 h2 h3 ⊢
+  simp only [entStep, h1, h2, h3, Bool.false_eq_true, if_false, if_true]
+
+theorem parseEnt_block (mb w hidden : Bool) (groups : List Group) (e : Ent) (h : EntOK1 e)
+    (hg : ∀ g ∈ groups, GroupOK g = true) :
+    parseEnt w hidden (entBlock mb w groups e) = .ok (entRT w hidden e, if w then groups else []) := by
+  obtain ⟨n, hn⟩ : ∃ n : Nat, e.id = Int.ofNat n := ⟨e.id.toNat, by have := h.idNonneg; simp; omega⟩
+  have hk : ∀ kv ∈ isort keyLe e.keys, KeyNameOK kv.1 = true :=
+    fun kv hkv => h.keyNames kv ((mem_isort _ _ _).mp hkv)
+  have hkd : KeysDistinct (isort keyLe e.keys) := keysDistinct_isort h.keysDistinct
+  have hkd' : (([] : List (Str × Str)) ++ isort keyLe e.keys).Pairwise (fun (a b : Str × Str) => a.1 ≠ b.1) := by
+    simp only [List.nil_append]
+    exact hkd.imp (fun hab => lower_ne_of_ne hab)
+  have hf : ∀ f ∈ isort fixLe e.fixup, FixOK f = true :=
+    fun f hf => h.fixes f ((mem_isort _ _ _).mp hf)
+  have hfid : ((isort fixLe e.fixup).map (·.id)).Nodup :=
+    ((isort_perm fixLe e.fixup).map (·.id)).nodup_iff.mpr h.fixIds
+  have hfv := varsDistinct_isort h.fixVars
+  have hfold : foldE (entStep w) {} (entKids mb w groups e) =
+      .ok { id := e.id, solids := e.solids.map (fun s => solidRT w s.hidden s),
+            keys := isort keyLe e.keys, outputs := e.outputs.map projOut,
+            fixup := isort fixLe e.fixup,
+            groupIds := if w then [] else isort intLe e.groups,
+            visIds := if w then [] else isort intLe e.visIds,
+            visShown := if w then true else e.visShown, visAuto := if w then true else e.visAuto,
+            logicalPos := if w then [] else e.logicalPos, comments := e.comments, color := e.color,
+            groups := if w then groups else [] } := by
+    unfold entKids
+    rw [hn]
+    simp only [foldE, entStep_id]
+    rw [foldE_append, foldE_keys w _ _ hk hkd']
+    simp only []
+    rw [foldE_append, foldE_fixes w _ _ hf]
+    simp only []
+    rw [foldE_append, foldE_solids mb w _ _ h.solids]
+    simp only []
+    rw [foldE_append]
+    have hconn : foldE (entStep w)
+        { id := Int.ofNat n, keys := [] ++ isort keyLe e.keys, fixup := [] ++ isort fixLe e.fixup,
+          solids := [] ++ e.solids.map (fun s => solidRT w s.hidden s) }
+        (if e.outputs.isEmpty then [] else [kBlock "connections" (e.outputs.map exportOut)]) =
+        .ok { id := Int.ofNat n, keys := [] ++ isort keyLe e.keys, fixup := [] ++ isort fixLe e.fixup,
+              solids := [] ++ e.solids.map (fun s => solidRT w s.hidden s),
+              outputs := e.outputs.map projOut } := by
+      cases ho : e.outputs with
+      | nil => simp [foldE]
+      | cons o os =>
+        simp only [List.isEmpty_cons, Bool.false_eq_true, if_false, foldE]
+        rw [entStep_connections w _ (o :: os) (by rw [← ho]; exact h.outs)]
+        simp
+    rw [hconn]
+    simp only []
+    rw [foldE_append]
+    cases w with
+    | true =>
+      simp only [if_true]
+      rw [foldE_groups _ _ hg]
+      simp only [foldE, entStep_editor]
+      rw [foldE_entEditor true _ e h.color rfl rfl rfl rfl rfl rfl]
+      simp
+    | false =>
+      simp only [Bool.false_eq_true, if_false, foldE, entStep_editor]
+      rw [foldE_entEditor false _ e h.color rfl rfl rfl rfl rfl rfl]
+      simp
+  simp only [entBlock, kBlock, parseEnt]
+  rw [hfold]
+  simp only [entOfSt, entRT]
+  have e1 := foldl_entSetKey [] (isort keyLe e.keys) (by simpa using hkd)
+  simp only [List.nil_append] at e1
+  rw [e1, fixInit_id _ hfid hfv]
+
+
 end C06
